@@ -132,6 +132,16 @@ CLAIMS = {
              "static parser: parse(f, validate=even) == parse(f with right checksum, validate=1) term by term (payloads up to 1023 bytes, incl. 600).",
         note="Trusted: CPython, z3, stream double; frames without a message number are left out of the parsed on/off comparison (they cannot be parsed at all).",
         ref="DESIGN.md section 5 C17", technique=TECH),
+    "C10": dict(
+        text="Decided on the code and on the tables: (a) every defined identity decodes on every path of a symbolic complete payload for every structure of the bound; "
+             "definitions are well-shaped, name defined fields, counters refer to earlier fields, identity ranges dispatch to the right table; (b) for ~100 pinned types "
+             "(standard observables, ephemerides, SSR, all 49 MSM, 36 IGS sub-types, 4076_201) a symbolic payload of exactly ceil(S/8) bytes decodes on every path and one byte "
+             "less is rejected on every path, where S is the standard's formula, and the independent layout walker's bit total equals S exactly; (c) composite SSR blocks: the "
+             "same symbolic block bits laid under the combined and the orbit/clock definitions give equal attribute terms (solver-decided) and equal field sequences; extended "
+             "observables contain the basic ones; one MSM layout per level; all IGS constellations share IGM01-07.",
+        note="Trusted: CPython, z3, pinned formulas/relations in spec/lengths.json and spec/siblings.json (written from RTCM 10403.3 / IGS SSR v1, each cross-checked against "
+             "the recorded frames of the repository's tests; unpinned types listed there).",
+        ref="DESIGN.md section 5 C10", technique=TECH + " + table conformance against pinned standard data"),
 }
 
 NA_REASON = "check under construction in this build round (see DESIGN.md); will be claimed once its harness lands"
